@@ -86,6 +86,7 @@ def conclude(pid, spec, results, tier, seed, wall, kani=(), extra_viol=()):
     violations = []
     known_hit = {}
     c20_sites = []
+    c20_support = []
     fallback_hits = []
     canaries_total = 0
     stability = []
@@ -186,7 +187,14 @@ def conclude(pid, spec, results, tier, seed, wall, kani=(), extra_viol=()):
                 key = _diag_key(d, r.mode)
                 if pid == 'C20' and key['kind'] != 'overflow' and 'explicit_panic' not in (d.callee_clause or '') \
                         and 'explicit_panic' not in (d.expr or ''):
-                    continue   # clauses of the other properties are decided by their own checks
+                    # Clauses of the other properties are decided by their own checks - but C20's own claim ("no
+                    # overflow site in this function") is proved UNDER the function's loop invariants and the
+                    # contracts of its callees.  If one of those fails (and is not a listed finding of another
+                    # property), the overflow-freedom proof rests on a false premise: search a dev/release
+                    # difference; with one it is a violation, without one the run is undecided - never exit 0.
+                    if findings.match(key, known) is None:
+                        c20_support.append((r, d, key))
+                    continue
                 if key['kind'] == 'overflow':
                     # implicit panic site: a C20 obligation, not one of the other properties
                     c20_sites.append((r.unit, key))
@@ -204,6 +212,28 @@ def conclude(pid, spec, results, tier, seed, wall, kani=(), extra_viol=()):
                     continue
                 violations.append((r, d, key))
                 failed_obl.add('%s [%s] %s' % (fn, r.mode, key.get('clause') or 'safety'))
+    if c20_support:
+        import witness as _witness
+        seen_fn = {}
+        for (r, d, key) in c20_support:
+            if d.fn in seen_fn:
+                continue
+            w = None
+            if len(seen_fn) < 4:
+                try:
+                    w = _witness.search(pid, r, d, key, tier, seed, profile_pair=('dev', 'release'))
+                except Exception:
+                    w = None
+            seen_fn[d.fn] = w
+            if w:
+                k2 = dict(key)
+                k2['witness'] = w
+                k2['kind'] = 'overflow (found by the dev/release search after %s failed)' % (key.get('clause') or key.get('kind'))
+                violations.append((r, d, k2))
+                failed_obl.add('%s [%s] safety' % (d.fn, r.mode))
+            else:
+                undecided.append('unit %s/%s: the overflow-freedom of %s is proved under an obligation that fails (%s); no dev/release '
+                                 'difference was found' % (r.unit, r.mode, d.fn, key.get('clause') or key.get('kind')))
     for fn, w in extra_viol:
         import runner as _runner
         d = _runner.Diag()
